@@ -154,6 +154,12 @@ I.register_model(ir.Context.__dict__["code"], lambda it, self: block(it))
 def worker_summary(it, closure, code):
     I_, W_ = state(closure.frame)
     I0, W0 = I_.term, W_.term
+    # precondition of every recursive call: the branches of one statement are alternatives, each is entered
+    # on a path on which none of its siblings ran -- so a branch may only read what was readable BEFORE the
+    # statement (a temporary defined in the then-branch is not defined in the else-branch)
+    entry = getattr(it, "stmt_entry_V", None)
+    if entry is not None:
+        it.ctx.prove(QUAL + "/search_invalid_temporaries#call.pre-branch-sees-only-the-state-before-its-statement", subset(V(I0, W0), entry))
     if not it.ctx.branch(it.ctx.fresh_bool("sub_block_accepted")):
         it.raise_(AssertionError)  # the analysis of the sub-block may reject
     I1, W1, L, G = fresh_set(it, "I"), fresh_set(it, "W"), fresh_set(it, "L"), fresh_set(it, "DA")
@@ -218,6 +224,8 @@ class StmtLoop(C.LoopSpec):
 
     def next_item(self, it, frame, st):
         kind = it.ctx.choose(5, "stmt_kind")
+        I_, W_ = state(frame)
+        it.stmt_entry_V = V(I_.term, W_.term)
         it.sub_calls = []
         it.checked_reads = []
         it.case_exit = None
